@@ -22,7 +22,9 @@ func (k Keeper) MintingEnabled(ctx sdk.Context, sender, receiver sdk.AccAddress,
 	}
 
 	id := k.GetTokenPairID(ctx, token)
-	denomId := k.GetTokenPairID(ctx, denom)
+	// the denomination is looked up in the denomination index only: a bare hex string is not an
+	// alias of the pair's contract on the coin side
+	denomId := k.GetDenomMap(ctx, denom)
 	if !bytes.Equal(denomId, id) {
 		return types.TokenPair{}, sdkerrors.Wrapf(types.ErrTokenPairNotFound, "denom '%s' not registered by id", denom)
 	}
